@@ -13,6 +13,7 @@
 //!      recorded with ` => <ids> | <moves_per_pass> | <rewinded_moves_per_pass>` (HashSet order:
 //!      on tie-sensitive cases the model searches a choice sequence giving that line)
 //!  `arcswap <threads> <wt:i|f> <max_imbalance: none|f64 hex> <rows> {<deg> {<j> <w>}} <m> <ids…> <l> <ws…>`
+//!      (threads = 1, i64 weights: compared exactly with C05's sequential model; else oracle only)
 //!  `kmeans2|kmeans3 <threads> <imbalance_tol hex> <delta_threshold hex> <max_iter> <max_balance_iter>
 //!      <erode 0|1> <mbr_early_break 0|1> <n> <ids…> <coords: n*D integers, value = t/16> <weights: n
 //!      integers, value = t/4>`
@@ -1063,7 +1064,11 @@ fn gen_arcswap(ctx: &mut Ctx, large: bool) -> Case {
     ctx.count(&format!("arcswap:{}", wm));
     ctx.count(&format!("arcswap:max_imbalance:{}", cap_name(mi)));
     ctx.count(&format!("arcswap:parts:{}", k));
-    Case::ArcSwap { threads: threads_of(ctx), f64w: ctx.rng.chance(1, 3), mi, rows, ids, ws }
+    let threads = threads_of(ctx);
+    // single-worker i64 runs are compared exactly with C05's sequential model
+    let f64w = if threads == 1 { ctx.rng.chance(1, 6) } else { ctx.rng.chance(1, 3) };
+    ctx.count(&format!("arcswap:threads:{}:{}", threads, if f64w { "f64" } else { "i64" }));
+    Case::ArcSwap { threads, f64w, mi, rows, ids, ws }
 }
 
 fn gen_kmeans(ctx: &mut Ctx, large: bool) -> Case {
